@@ -5,11 +5,21 @@
       C12_recursion_balanced, C12_parse_steps_linear, C12_depth_limit_iff,
       C12_flat_documents_never_hit_the_limit;  defect 14 as witnesses of the unrepaired model.
     Validator (count models Cplx/MergeCountModel.v, Cplx/CostWalkCount.v):
-      C12_cost_walk_exponential_refuted — the cost walk is NOT polynomial (known finding, defect 16);
-      C12_merge_exponential_before_fix_witness / C12_merge_family_after_fix_witness — defect 15. *)
+      C12_merge_steps_poly, C12_merge_steps_bound_poly — the overlapping-fields pass (repaired) is
+        polynomial on every document;
+      C12_merge_exponential_before_fix_witness / C12_merge_family_after_fix_witness — defect 15;
+      C12_cost_walk_exponential_refuted — the cost walk is NOT polynomial (known finding, defect 16).
+
+    Not proved (checked on every run by the oracle of Cplx/ComplexitySpec.v only): the bounds
+    [cycle_steps_bound] for the fragment cycle search (Cplx/FragmentWalkCount.v, cycle_search_run)
+    and [var_steps_bound] for the variable walk (var_walk_run); full statements:
+      forall D, match cycle_search_run D with Some w => w_steps w <= cycle_steps_bound D + n_frags D | None => False end
+      forall D, match var_walk_run D with Some k => k <= var_steps_bound D | None => False end
+    and a polynomial bound for the cost walk on documents whose fragments contain no spreads. *)
 From Coq Require Import List ZArith Bool.
 From ApiFu Require Import Cplx.Tables Cplx.ParserDepthModel Cplx.MergeCountModel Cplx.CostWalkCount
-     Cplx.ComplexityDecode Cplx.ComplexitySpec Cplx.ParserDepthProofs Cplx.CostWalkProofs Cplx.MergeFamily.
+     Cplx.ComplexityDecode Cplx.ComplexitySpec Cplx.ParserDepthProofs Cplx.CostWalkProofs Cplx.MergeFamily
+     Cplx.MergeCountProofs.
 Import ListNotations.
 Open Scope Z_scope.
 
@@ -57,6 +67,25 @@ Proof. exact flat_document_refused_before_fix. Qed.
 
 (** ** the validator *)
 
+(** The overlapping-fields pass of validateFields as repaired (second ast.Inspect:
+    addFieldSelections, validateFieldsInSetCanMerge, validateSameResponseShape with the two sets of
+    checked pairs), on EVERY abstract document - valid or not, with fragment cycles, undefined
+    fragments, unknown fields, dangling indices - and whatever it reports: the model never runs
+    out of fuel and does at most [merge_steps_bound D] steps (one step per call of each of the four
+    functions, per loop iteration, per AST node of two compared argument lists), where
+      merge_steps_bound D = n_visits * top_cost + (n_visits + 1) * n_fields^2 * (pair_body_cost + shape_body_cost)
+    is the polynomial the oracle applies to the real code's block counters on every run. *)
+Theorem C12_merge_steps_poly : forall D : doc,
+  match merge_run true D with
+  | MOk st | MErr st => m_steps st <= merge_steps_bound D
+  | MOutOfFuel => False
+  end.
+Proof. exact merge_steps_poly. Qed.
+
+(** ... and that polynomial has degree 6 in the size of the document *)
+Theorem C12_merge_steps_bound_poly : forall D : doc, merge_steps_bound D <= 150 * (doc_size D + 1) ^ 6.
+Proof. exact merge_steps_bound_poly. Qed.
+
 (** Defect 16, known (key cost-walk-reexpansion): the property's clause "cost calculation
     included" is REFUTED for the cost walk.  For every n the document
       {...F0} fragment F0 on T{...F1 ...F1} ... fragment F(n-1) on T{...Fn ...Fn} fragment Fn on T{i}
@@ -94,6 +123,8 @@ Print Assumptions C12_depth_limit_iff.
 Print Assumptions C12_flat_documents_never_hit_the_limit.
 Print Assumptions C12_recursion_unbalanced_before_fix.
 Print Assumptions C12_flat_document_refused_before_fix.
+Print Assumptions C12_merge_steps_poly.
+Print Assumptions C12_merge_steps_bound_poly.
 Print Assumptions C12_cost_walk_exponential_refuted.
 Print Assumptions C12_merge_exponential_before_fix_witness.
 Print Assumptions C12_merge_family_after_fix_witness.
